@@ -168,9 +168,9 @@ def run(seed, tier, lean) -> Result:
     else:
         cases += list(exhaustive(1, VARIANTS_FULL, list(TTC_KINDS)))
         cases += list(exhaustive(2, VARIANTS_FULL, list(TTC_KINDS)))
-        red = [('or', None, None), ('and', None, None), ('defense', 0.0, None), ('defense', 1.0, None), ('exist', None, False)]
+        red = [('or', None, None), ('and', None, None), ('defense', 1.0, None), ('exist', None, True)]
         cases += list(exhaustive(3, red, ['none', 'dist']))
-        nrand, nmax, nperm = 40000, 40, 3
+        nrand, nmax, nperm = 8000, 30, 3
     nex = len(cases)
     for _ in range(nrand):
         cases.append(random_graph(rnd, nmax))
